@@ -5,7 +5,7 @@ prop=$1; patch=$(readlink -f "$2"); shift 2
 cd /repo || exit 2
 if git apply --check "$patch" 2>/dev/null; then
   git apply "$patch"
-elif git apply --3way "$patch" >/dev/null 2>&1; then
+elif git apply --3way "$patch" >/dev/null 2>&1 || { git checkout -q HEAD -- . ; git reset -q; false; }; then
   git reset -q
   if git diff --quiet; then echo "PATCH-DOES-NOT-APPLY $patch"; exit 3; fi
   if grep -rq '^<<<<<<<' $(git diff --name-only); then git checkout -- .; echo "PATCH-CONFLICTS $patch"; exit 3; fi
@@ -14,6 +14,7 @@ else
 fi
 /verif/check "$prop" "$@" 2>/tmp/try_mutant.err
 rc=$?
-git checkout -- .
+git checkout -q HEAD -- .
+git reset -q
 echo "exit=$rc"
 exit $rc
